@@ -4,6 +4,7 @@
 mod c14;
 mod c01;
 mod c02;
+mod c03;
 mod c04;
 mod c05;
 mod c07;
@@ -76,6 +77,7 @@ fn main() {
             "C15" => c15::replay(case),
             "C01" => c01::replay(case),
             "C02" => c02::replay(case),
+            "C03" => c03::replay(case),
             "C04" => c04::replay(case),
             "C05" => c05::replay(case),
             "C07" => c07::replay(case),
@@ -98,6 +100,7 @@ fn main() {
         "C15" => c15::run(&a),
         "C01" => c01::run(&a),
         "C02" => c02::run(&a),
+        "C03" => c03::run(&a),
         "C04" => c04::run(&a),
         "C05" => c05::run(&a),
         "C07" => c07::run(&a),
